@@ -1068,6 +1068,12 @@ func qGenJoin(rt *rapid.T, tables []*qTable, three bool) (qQuery, bool) {
 	if p.l.col().Kind.caseInsensitive() || p.r.col().Kind.caseInsensitive() {
 		shape += " ci_join_key"
 	}
+	mixedSign := func(a, b qKind) bool {
+		return (a == qkBig && b == qkUBig) || (a == qkUBig && b == qkBig)
+	}
+	if mixedSign(p.l.col().Kind, p.r.col().Kind) {
+		shape += " mixed_sign_join_key"
+	}
 	switch rapid.IntRange(0, 5).Draw(rt, "join.extra") {
 	case 0:
 		p2 := rapid.SampledFrom(pairs).Draw(rt, "join.on2")
@@ -1097,6 +1103,9 @@ func qGenJoin(rt *rapid.T, tables []*qTable, three bool) (qQuery, bool) {
 			}
 			if (p3.l.col().Kind.caseInsensitive() || p3.r.col().Kind.caseInsensitive()) && !strings.Contains(shape, "ci_join_key") {
 				shape += " ci_join_key"
+			}
+			if mixedSign(p3.l.col().Kind, p3.r.col().Kind) && !strings.Contains(shape, "mixed_sign_join_key") {
+				shape += " mixed_sign_join_key"
 			}
 			all = append(all, rc...)
 			used = append(used, tc)
